@@ -110,12 +110,24 @@ def lazy(ctx, cfg, P, role, size):
         else:
             c = role_const(P, f, n)
             args.append(SA.C(c, prm.get('bits') or 64) if c is not None else ('u',))
-    ex = SA.Explorer(P, sat=None, max_states=40000, max_seconds=40)
-    st = SA.State()
-    st.tapes = {'T': SA.Tape('T', SA.alphabet_for(P, [f.name], eq=(0,), order=(128,)))}
-    st.mem = {'norm': {'#size': size}}
-    st.mon = SA.LazyMonitor(size)
-    st.frames = [SA.Frame(f, args)]
+    r = None
+    for exact in (False, True):
+        # second attempt for index-form code: exact positions on inputs of up to size+2 bytes (the reference reads nothing beyond byte size-1, and a read
+        # beyond the forced terminator would be reported, so longer inputs behave like their prefix)
+        ex = SA.Explorer(P, sat=None, max_states=40000 if not exact else 4000000, max_seconds=40 if not exact else 90, exact=exact)
+        st = SA.State()
+        st.tapes = {'T': SA.Tape('T', SA.alphabet_for(P, [f.name], eq=(0,), order=(128,)), maxlen=(size + 2) if exact else None)}
+        st.mem = {'norm': {'#size': size}}
+        st.mon = SA.LazyMonitor(size)
+        st.frames = [SA.Frame(f, list(args))]
+        r = _lazy_run(ex, st, size)
+        r.extra['exact_positions'] = exact
+        if r.status != 'imprecise': break
+    C[key] = r
+    return r
+
+
+def _lazy_run(ex, st, size):
     bad = []
     def on_ret(s_, ret, bad=bad):
         m = s_.mon; w_ = SA.witness(s_)['T'][:120]
@@ -135,7 +147,6 @@ def lazy(ctx, cfg, P, role, size):
         r = Result('found', ex=ex, exc=e)
     except SA.Imprecise as e:
         r = Result('imprecise', ex=ex, why=str(e))
-    C[key] = r
     return r
 
 
